@@ -3,6 +3,7 @@ SPECIFICATION Spec
 CONSTANTS
   Threads = {1, 2}
   Rounds = 2
+  MoreRounds = {}
   PassiveSpin = 1
   Spurious = FALSE
   WakeOn = 1
